@@ -6,8 +6,11 @@ typed items
   work_skeleton       the statements of the _work loop body with the guard each one sits in
   remove_skeleton     _remove_service: pop / delete-when-empty / notify (always or only when present)
   tcp_recv_skeleton   TCPRegistryServer._recv: calls on the listening / accepted socket in program order
-  cmd_lookup_guarded, remove_notifies_only_present, tcp_accepted_timeout
-                      the three facts the model takes as parameters (re-derived in Gallina from the
+  register_skeleton   cmd_register: names type check / reply-encodability check / add loop / return
+  tcp_client_timeout_ms  default timeout of TCPRegistryClient
+  cmd_lookup_guarded, remove_notifies_only_present, tcp_accepted_timeout,
+  reply_dump_guarded, register_validates_reply, tcp_recv_closes_unanswered
+                      the facts the model takes as parameters (re-derived in Gallina from the
                       skeletons; proofs/RegistryP.v proves that both derivations agree)
 shape items (snapshot in expected/registry.json): every other method of the three server classes.
 Anything that does not match a template raises Unrecognised (fail closed)."""
@@ -75,10 +78,17 @@ def _work_stmt(st):
             h = _one_handler(st, ("Exception",))
             if h and _txt(h.body) in (["continue"], ["cmdfunc = None"]) and not st.orelse:
                 return [("WLookup", "GAny")]
-        if body == ["reply = cmdfunc(addrinfo[0], *args)"]:
+        if body and body[0] == "reply = cmdfunc(addrinfo[0], *args)":
             h = _one_handler(st, ("Exception",))
-            if h and _txt(h.body) == [] and _txt(st.orelse) == ["self._send(brine.dump(reply), addrinfo)"]:
-                return [("WCall", "GAny"), ("WSendReply", "GNone")]
+            if h and _txt(h.body) == []:
+                if body[1:] == [] and _txt(st.orelse) == ["self._send(brine.dump(reply), addrinfo)"]:
+                    return [("WCall", "GAny"), ("WDump", "GNone"), ("WSendReply", "GNone")]
+                if len(body) == 2 and isinstance(st.body[-1], ast.Assign) and len(st.body[-1].targets) == 1 \
+                        and isinstance(st.body[-1].targets[0], ast.Name) and ast.unparse(st.body[-1].value) == "brine.dump(reply)" \
+                        and _txt(st.orelse) == ["self._send(%s, addrinfo)" % st.body[-1].targets[0].id]:
+                    return [("WCall", "GAny"), ("WDump", "GAny"), ("WSendReply", "GNone")]
+                if body[1:] == ["self._send(brine.dump(reply), addrinfo)"] and not st.orelse:
+                    return [("WCall", "GAny"), ("WDump", "GAny"), ("WSendReply", "GAny")]
         raise Unrecognised("_work try: " + ast.unparse(st)[:80])
     if isinstance(st, ast.If) and not st.orelse and _txt(st.body) == ["continue"]:
         test = ast.unparse(st.test)
@@ -119,9 +129,43 @@ SKEL = {
 }
 
 
-def _skel_of(lk):
+TAIL = {
+    "unguarded": [("WDump", "GNone"), ("WSendReply", "GNone")],
+    "dump_guarded": [("WDump", "GAny"), ("WSendReply", "GNone")],
+    "all_guarded": [("WDump", "GAny"), ("WSendReply", "GAny")],
+}
+
+
+def _skel_of(lk, tl):
     return [("WRecv", "GSock"), ("WLoadUnpack", "GAny"), ("WMagicCheck", "GNone")] + lk + \
-        [("WUnknownCheck", "GNone"), ("WCall", "GAny"), ("WSendReply", "GNone")]
+        [("WUnknownCheck", "GNone"), ("WCall", "GAny")] + tl
+
+
+def _register_skeleton(fn):
+    a = [x.arg for x in fn.args.args]
+    if a != ["self", "host", "names", "port"]:
+        raise Unrecognised("cmd_register arguments")
+    out = []
+    for st in strip_doc(fn.body):
+        t = ast.unparse(st)
+        if isinstance(st, ast.Expr) and isinstance(st.value, ast.Constant):
+            continue
+        if t == "self.logger.debug('registering %s:%s as %s', host, port, ', '.join(names))":
+            out.append("GJoinCheck")        # the eager join is the only type check on names
+        elif t in ("brine.dump(((host, port),))", "brine.dump(((host, port),),)"):
+            out.append("GReplyCheck")
+        elif t == "for name in names:\n    self._add_service(name.upper(), (host, port))":
+            out.append("GAddLoop")
+        elif t == "return 'OK'":
+            out.append("GReturnOK")
+        elif _is_logger_call(st):
+            continue
+        else:
+            raise Unrecognised("cmd_register statement: " + t[:80])
+    if out not in (["GJoinCheck", "GAddLoop", "GReturnOK"], ["GJoinCheck", "GReplyCheck", "GAddLoop", "GReturnOK"],
+                   ["GReplyCheck", "GJoinCheck", "GAddLoop", "GReturnOK"]):
+        raise Unrecognised("cmd_register statement order")
+    return out
 
 
 def _notify_try(st):
@@ -180,8 +224,21 @@ def _tcp_recv_skeleton(fn):
             return v
         return None
 
+    SWEEPS = ("for sock in self._connected_sockets.values():\n    sock.close()",
+              "for s in self._connected_sockets.values():\n    s.close()",
+              "for sock2 in self._connected_sockets.values():\n    sock2.close()",
+              "while self._connected_sockets:\n    self._connected_sockets.popitem()[1].close()")
+
     def visit(stmts, live):
-        for st in stmts:
+        for idx, st in enumerate(stmts):
+            if live and isinstance(st, (ast.For, ast.While)) and ast.unparse(st) in SWEEPS:
+                if isinstance(st, ast.For) and not (idx + 1 < len(stmts)
+                                                    and ast.unparse(stmts[idx + 1]) == "self._connected_sockets.clear()"):
+                    raise Unrecognised("TCP _recv: sweep without clear()")
+                out.append("TSweep")
+                continue
+            if live and ast.unparse(st) == "self._connected_sockets.clear()" and out and out[-1] == "TSweep":
+                continue
             if isinstance(st, ast.Try):
                 visit(st.body, live)
                 for h in st.handlers:
@@ -220,6 +277,15 @@ def _tcp_recv_skeleton(fn):
     return out
 
 
+def _tskel_sweeps(k):
+    for x in k:
+        if x == "TSweep":
+            return True
+        if x == "TAccept":
+            return False
+    return False
+
+
 def _tskel_timeout(k):
     seen_accept = seen_to = False
     for x in k:
@@ -239,6 +305,17 @@ def _num(node):
         a, b = _num(node.left), _num(node.right)
         return a * b if isinstance(node.op, ast.Mult) else a + b if isinstance(node.op, ast.Add) else a - b
     raise Unrecognised("numeric constant " + ast.dump(node)[:60])
+
+
+def _client_timeout(cls):
+    init = find_func(cls, "__init__")
+    names = [a.arg for a in init.args.args]
+    if "timeout" not in names:
+        raise Unrecognised("client timeout argument")
+    i = names.index("timeout") - (len(names) - len(init.args.defaults))
+    if i < 0:
+        raise Unrecognised("client timeout default")
+    return _num(init.args.defaults[i])
 
 
 def _ms(x):
@@ -270,7 +347,8 @@ def translate(repo):
                 typed("max_dgram_size", "Z", coq_z(_num(find_assign(tree, "MAX_DGRAM_SIZE")))),
                 typed("registry_port", "Z", coq_z(_num(find_assign(tree, "REGISTRY_PORT")))),
                 typed("udp_timeout_ms", "Z", coq_z(_ms(_num(find_assign(udp, "TIMEOUT"))))),
-                typed("tcp_timeout_ms", "Z", coq_z(_ms(_num(find_assign(tcp, "TIMEOUT")))))]
+                typed("tcp_timeout_ms", "Z", coq_z(_ms(_num(find_assign(tcp, "TIMEOUT"))))),
+                typed("tcp_client_timeout_ms", "Z", coq_z(_ms(_client_timeout(find_class(tree, "TCPRegistryClient")))))]
     guarded(consts)
 
     def commands():
@@ -283,11 +361,12 @@ def translate(repo):
 
     def work():
         k = _work_skeleton(find_func(base, "_work"))
-        g = k in (_skel_of(SKEL["textcheck"]), _skel_of(SKEL["iftext"]), _skel_of(SKEL["try"]))
-        if not g and k != _skel_of(SKEL["bare"]):
+        hit = [(a, b) for a in SKEL for b in TAIL if k == _skel_of(SKEL[a], TAIL[b])]
+        if len(hit) != 1:
             raise Unrecognised("_work statement order")
         return [typed("work_skeleton", "skeleton", coq_list("(%s, %s)" % x for x in k)),
-                typed("cmd_lookup_guarded", "bool", coq_bool(g))]
+                typed("cmd_lookup_guarded", "bool", coq_bool(hit[0][0] != "bare")),
+                typed("reply_dump_guarded", "bool", coq_bool(hit[0][1] != "unguarded"))]
     guarded(work)
 
     def remove():
@@ -299,12 +378,20 @@ def translate(repo):
     def tcp_recv():
         k = _tcp_recv_skeleton(find_func(tcp, "_recv"))
         return [typed("tcp_recv_skeleton", "list tstmt", coq_list(k)),
-                typed("tcp_accepted_timeout", "bool", coq_bool(_tskel_timeout(k)))]
+                typed("tcp_accepted_timeout", "bool", coq_bool(_tskel_timeout(k))),
+                typed("tcp_recv_closes_unanswered", "bool", coq_bool(_tskel_sweeps(k)))]
     guarded(tcp_recv)
 
+    def register():
+        k = _register_skeleton(find_func(base, "cmd_register"))
+        return [typed("register_skeleton", "list gstmt", coq_list(k)),
+                typed("register_validates_reply", "bool", coq_bool("GReplyCheck" in k))]
+    guarded(register)
+
     # shapes of everything the typed items do not cover
-    skip = {("RegistryServer", "_work"), ("RegistryServer", "_remove_service"), ("TCPRegistryServer", "_recv")}
-    for cls in (base, udp, tcp):
+    skip = {("RegistryServer", "_work"), ("RegistryServer", "_remove_service"), ("TCPRegistryServer", "_recv"),
+            ("RegistryServer", "cmd_register")}
+    for cls in (base, udp, tcp, find_class(tree, "TCPRegistryClient")):
         for n in cls.body:
             if isinstance(n, ast.FunctionDef) and (cls.name, n.name) not in skip:
                 items.append(shape("%s.%s" % (cls.name, n.name), func_shape(n)))
